@@ -8,7 +8,8 @@ def isDigitC (c : Char) : Bool := '0' ≤ c && c ≤ '9'
 /-- characters for which `url` and RFC 3986 agree byte-for-byte (no percent-encoding, no repair) -/
 def inClassChar (c : Char) : Bool :=
   isAlphaC c || isDigitC c || c == '-' || c == '.' || c == '_' || c == '~' || c == '/' || c == '?' ||
-  c == '#' || c == '=' || c == '&' || c == ':'
+  c == '#' || c == '=' || c == '&' || c == ':' || c == ';' || c == '%' || c == ',' || c == '+' || c == '!' ||
+  c == '$' || c == '(' || c == ')' || c == '*'
 
 structure Ref where
   scheme : Option String
@@ -92,6 +93,8 @@ def mergePath (basePath : String) (refPath : String) : String :=
 
 def resolve (base : Uri) (loc : String) : Res3986 :=
   if !loc.toList.all inClassChar then .outOfClass else
+  -- WHATWG treats percent-encoded dots as dot segments; RFC 3986 does not
+  if (loc.toLower.splitOn "%2e").length > 1 then .outOfClass else
   let r := parseRef loc
   let mk (scheme : String) (host : String) (port : Option Nat) (path : String) (query : Option String) : Res3986 :=
     .ok { scheme := scheme, host := host, port := port, path := if path.isEmpty then "/" else path, query := query }
